@@ -22,6 +22,7 @@ def run(facts, tier):
         ("builder/reset", T.builder_reset, 2, "reset() restores theta through the builder's helper; re-reads follow member resets"),
         ("reset completeness", lambda fa: c19_rules.reset_completeness(fa, ['update_theta_sketch_alloc','theta_update_sketch_base']), 6, "every field a mutator modifies is re-initialised by reset() (a reused object equals a fresh one); reviewed exceptions are configuration fields"),
         ("emptiness predicate support", lambda fa: predicates.obligations(fa, ['update_theta_sketch_alloc','compact_theta_sketch_alloc']), 2, "the emptiness predicate still consults every field it depended on in the reviewed tree (spec/predicates.json)"),
+        ("delegations", lambda fa: generic_lints.unconditional_delegations(fa, ('theta/',)), 2, "wrappers that only hand an operation to a member object still do so unconditionally (spec/delegations.json)"),
         ("tautologies", lambda fa: generic_lints.tautologies(fa, ('theta/',)), 2, "no comparison / assignment / min-max with two identical operands, no if-else with identical arms"),
         ("hazards", lambda fa: hazard_lints.hazards(fa, ('theta/',)), 2, "no 64-bit value silently narrowed at a call of a library function, no numeric_limits<floating>::min() as a lowest value, no random engine constructed inside a loop, no read of a moved-from parameter, no unguarded unsigned `x - c` loop bound (reviewed instances in spec/hazards.json)"),
         ("duplicate operands", lambda fa: generic_lints.duplicate_conjuncts(fa, ('theta/',)), 2, "no logical chain tests the same operand twice (copy-paste of the wrong peer)"),
